@@ -16,7 +16,7 @@ Fixpoint wf (t : tr) : bool :=
       (fix all (l : list tr) : bool := match l with [] => true | x :: r => wf x && all r end) ts
       && (e || match nth_error ts k with Some x => negb (exhausted x) | None => false end)
   | TCache t0 e | TDistinct t0 e _ | TUniquified t0 e _ | TCharset t0 e => wf t0 && (e || negb (exhausted t0))
-  | TPrefetch t0 q e => wf t0 && (e || negb (is_nil q) || negb (exhausted t0))
+  | TPrefetch t0 q e | TSimplified _ t0 q e => wf t0 && (e || negb (is_nil q) || negb (exhausted t0))
   end.
 
 Definition live (x : tr) : bool := wf x && negb (exhausted x).
@@ -51,7 +51,7 @@ Lemma wf_peek : forall n t, height t <= n -> wf t = true -> exhausted t = false 
 Proof.
   induction n as [|n IH]; intros t Hh Hw He.
   { destruct t; cbn [height] in Hh; lia. }
-  destruct t as [cd e|cd e|l|ts|ts k e|t e|t e s|t q e|t e|t e yl]; cbn [exhausted] in He.
+  destruct t as [cd e|cd e|l|ts|ts k e|t e|t e s|t q e|t e|t e yl|cv t q e]; cbn [exhausted] in He.
   - subst e. discriminate.
   - subst e. discriminate.
   - destruct l; [discriminate|]. discriminate.
@@ -73,6 +73,9 @@ Proof.
   - subst e. cbn [peek]. cbn [wf orb] in Hw. apply andb_true_iff in Hw. destruct Hw as [Hw Hx].
     apply negb_true_iff in Hx. apply IH; [cbn [height] in Hh; lia|assumption|assumption].
   - subst e. cbn [peek]. cbn [wf orb] in Hw. apply andb_true_iff in Hw. destruct Hw as [Hw Hx].
+    apply negb_true_iff in Hx. apply IH; [cbn [height] in Hh; lia|assumption|assumption].
+  - subst e. cbn [peek]. destruct q as [|p q]; [|discriminate].
+    cbn [wf orb is_nil negb] in Hw. apply andb_true_iff in Hw. destruct Hw as [Hw Hx].
     apply negb_true_iff in Hx. apply IH; [cbn [height] in Hh; lia|assumption|assumption].
 Qed.
 
@@ -141,6 +144,17 @@ Section LoopsWf.
     destruct (is_single_char p); apply IH; try exact H; left.
     - destruct top; reflexivity.
     - destruct top; [|reflexivity]. cbn [app]. destruct bottom; reflexivity.
+  Qed.
+  Lemma forms_of_nonnil conv x : is_nil (forms_of conv x) = false.
+  Proof. unfold forms_of. destruct (conv x) as [[h tl]|]; reflexivity. Qed.
+
+  Lemma settle_wf conv t c : wf t = true -> wf (fst (settle nx conv t c)) = true.
+  Proof.
+    intro Hw. unfold settle. destruct (exhausted t) eqn:E; [cbn [fst wf orb]; now rewrite Hw|].
+    pose proof (Hnx t c Hw) as H.
+    destruct (peek t) as [x|] eqn:Ep; [|exfalso; eapply (wf_peek (height t)); eauto].
+    destruct (nx t c) as [[r0 t'] c']. cbn [r_tr fst snd wf orb] in *.
+    rewrite H, forms_of_nonnil. reflexivity.
   Qed.
 End LoopsWf.
 
@@ -222,7 +236,7 @@ Qed.
 Lemma next_d_wf d : nx_wf (next_d d).
 Proof.
   induction d as [|d IH]; intros t c Hw; [reflexivity|].
-  destruct t as [cd e|cd e|l|ts|ts k e|t e|t e s|t q e|t e|t e yl]; cbn [next_d].
+  destruct t as [cd e|cd e|l|ts|ts k e|t e|t e s|t q e|t e|t e yl|cv t q e]; cbn [next_d].
   - destruct e; reflexivity.
   - destruct e; reflexivity.
   - destruct l; reflexivity.
@@ -274,6 +288,15 @@ Proof.
       destruct (uniquify (next_d d) (S (rem t')) yl0 t' (exhausted t') c') as [[[r1 t1] e1] c1] end.
     cbn [r_tr fst snd wf] in *.
     destruct H2 as [H2 [H3|H3]]; rewrite H2, H3; [reflexivity|]. cbn. apply orb_true_r.
+  - destruct e; [exact Hw|].
+    cbn [wf] in Hw. apply andb_true_iff in Hw. destruct Hw as [H0 _].
+    destruct q as [|x [|y q']].
+    + pose proof (IH t c H0) as H. destruct (next_d d t c) as [[r0 t'] c1]. cbn [r_tr fst snd] in H.
+      pose proof (settle_wf _ IH cv t' c1 H) as H2.
+      destruct (settle (next_d d) cv t' c1) as [t2 c2]. exact H2.
+    + pose proof (settle_wf _ IH cv t c H0) as H2.
+      destruct (settle (next_d d) cv t c) as [t2 c2]. exact H2.
+    + cbn [r_tr fst snd wf is_nil negb orb]. rewrite H0. reflexivity.
 Qed.
 
 (** ---- constructors establish wf ---- *)
@@ -301,6 +324,9 @@ Proof.
     pose proof (locate_wf _ (next_d_wf d) (S (rem (m_res m))) (m_res m) (m_cache m) Hw) as H.
     destruct (locate _ _ _ _) as [[found t'] c']. cbn [m_res fst snd wf] in *.
     destruct H as [H2 H3]. rewrite H2. destruct found; [|reflexivity]. now rewrite (H3 eq_refl).
+  - unfold mk_simplified.
+    pose proof (settle_wf _ (next_d_wf d) conv (m_res m) (m_cache m) Hw) as H.
+    destruct (settle _ _ _ _) as [t' c']. exact H.
 Qed.
 
 Lemma build_menu_wf ts fs : forallb wf ts = true -> wf (m_res (build_menu ts fs)) = true.
